@@ -234,6 +234,13 @@ def BodyOp.isRem : BodyOp → Bool
     `notify_callbacks()` from inside a delivery round -/
 def History.Domain (h : History) : Bool := h.scripts.all (fun b => b.all BodyOp.isRem)
 
+def BodyOp.isNotify : BodyOp → Bool
+  | .notify => true
+  | _ => false
+
+/-- wider domain: callbacks may remove and (try to) add registrations; only nested `notify_callbacks()` is excluded -/
+def History.Domain2 (h : History) : Bool := h.scripts.all (fun b => b.all (fun o => !o.isNotify))
+
 def run (h : History) : State := runFrom h.sc h.ops State.init
 
 /-! ### trace vocabulary of the property statement (logical, knows nothing of the mechanism) -/
